@@ -7,6 +7,7 @@ import (
 	"fmt"
 	"math"
 	"reflect"
+	"sort"
 	"strconv"
 	"strings"
 	"testing"
@@ -925,6 +926,67 @@ func genDCase(t *rapid.T) DCase {
 		return DCase{Class: class + "-raw", Data: base}
 	}
 	keys := []string{"type", "coordinates", "geometries", "geometry", "properties", "id", "bbox", "features", "crs"}
+	if rapid.IntRange(0, 3).Draw(t, "ragged") == 0 {
+		// an otherwise valid document whose positions do not all have the same number of
+		// ordinates: one ordinate moved from a position to another (the totals still add
+		// up), dropped, added, or a position emptied - in any "coordinates" at any depth
+		var tree any
+		dec := json.NewDecoder(bytes.NewReader(base))
+		dec.UseNumber()
+		if dec.Decode(&tree) == nil {
+			var pos []*[]any
+			var walk func(v any, inCoords bool)
+			walk = func(v any, inCoords bool) {
+				switch x := v.(type) {
+				case map[string]any:
+					for _, k := range sortedKeys(x) {
+						walk(x[k], k == "coordinates")
+					}
+				case []any:
+					if inCoords && len(x) > 0 {
+						if _, num := x[0].(json.Number); num {
+							return // a bare position (a Point's): its parent holds no pointer to it
+						}
+					}
+					for i := range x {
+						if sub, ok := x[i].([]any); ok && inCoords && (len(sub) == 0 || isNumber(sub[0])) {
+							sub := sub
+							x[i] = &sub // placeholder, replaced below
+							pos = append(pos, x[i].(*[]any))
+						} else {
+							walk(x[i], inCoords)
+						}
+					}
+				}
+			}
+			walk(tree, false)
+			if len(pos) > 0 {
+				for n := rapid.IntRange(1, 2).Draw(t, "nragged"); n > 0; n-- {
+					i := rapid.IntRange(0, len(pos)-1).Draw(t, "rpos")
+					j := rapid.IntRange(0, len(pos)-1).Draw(t, "rpos2")
+					switch rapid.IntRange(0, 4).Draw(t, "rhow") {
+					case 0, 1: // move the last ordinate of position i to position j
+						if i != j && len(*pos[i]) > 0 {
+							last := (*pos[i])[len(*pos[i])-1]
+							*pos[i] = (*pos[i])[:len(*pos[i])-1]
+							*pos[j] = append(*pos[j], last)
+						}
+					case 2:
+						if len(*pos[i]) > 0 {
+							*pos[i] = (*pos[i])[:len(*pos[i])-1]
+						}
+					case 3:
+						*pos[i] = append(*pos[i], json.Number("7.5"))
+					default:
+						*pos[i] = []any{}
+					}
+				}
+				if data, err := json.Marshal(tree); err == nil {
+					return DCase{Class: class + "+ragged", Data: data}
+				}
+			}
+		}
+	}
 	for n := rapid.IntRange(1, 3).Draw(t, "nmut"); n > 0; n-- {
 		k := rapid.SampledFrom(keys).Draw(t, "key")
 		switch rapid.IntRange(0, 4).Draw(t, "mut") {
@@ -984,6 +1046,17 @@ func genDCase(t *rapid.T) DCase {
 		data[i] = rapid.SampledFrom([]byte{'[', ']', '{', '}', ',', '"', '0', 'e', '-', ' '}).Draw(t, "b")
 	}
 	return DCase{Class: class, Data: data}
+}
+
+func isNumber(v any) bool { _, ok := v.(json.Number); return ok }
+
+func sortedKeys(m map[string]any) []string {
+	ks := make([]string, 0, len(m))
+	for k := range m {
+		ks = append(ks, k)
+	}
+	sort.Strings(ks)
+	return ks
 }
 
 func propD(c DCase) error {
